@@ -8,7 +8,7 @@ INV = ["RoundTrip", "HTTPSelection", "PublicOnly", "KeepsPublic", "ExportCase"]
 def run(tier, seed, replay=None):
     ck = vlib.Check("C20", tier, seed, "model_checking")
     binary = vlib.build_harness()
-    c = dict(MaxPath=2 if tier == "quick" else 3, MaxList=2 if tier == "quick" else 3, PIPE='"fixed"', EXPORT=True)
+    c = dict(MaxPath=2 if tier == "quick" else 4, MaxList=2 if tier == "quick" else 3, PIPE='"fixed"', EXPORT=True)
     r = vlib.tlc("AddrConv", ("c20.cfg", vlib.cfg_text(c, INV)), timeout=7000, tag="c20")
     ck.add_tlc("AddrConv", r, "every URL (scheme x host kind x port x path of up to %d character classes) and every address list of up to %d entries" % (c["MaxPath"], c["MaxList"]))
     p = vlib.tlc("AddrConv", ("c20p.cfg", vlib.cfg_text(dict(c, PIPE='"pinned"', EXPORT=False, MaxList=0, MaxPath=1), ["RoundTrip"])), workers=2, timeout=600, tag="c20p")
